@@ -36,6 +36,7 @@ class Explorer:
         self.p_yield = 0.0
         self.events = 0
         self.lines_seen = set()
+        self.code_lines_seen = set()
         self.max_park = 5.0
 
     # -- lifecycle ---------------------------------------------------------------------------
@@ -92,6 +93,7 @@ class Explorer:
     def _on_line(self, code, line):
         self.events += 1
         self.lines_seen.add((code.co_name, line))
+        self.code_lines_seen.add((id(code), line))
         plan = self.plan
         if plan is not None and code is plan[0] and line == plan[1] and not self.reached.is_set():
             th = threading.current_thread()
